@@ -1,53 +1,152 @@
 (* C10 - Object checkout converges, is idempotent, honours link types, spares the cache.
-   Only statements; model in Model/ObjCheckout.v, proofs in Proofs/ObjCheckoutProofs2.v.
+   Only statements; model in Model/ObjCheckout.v, proofs in Proofs/ObjCo*.v, ObjCheckoutProofs2.v.
 
-   Deviation from DESIGN (time): C10_converges (restricted to readable priors, i.e. [stageable w]),
-   C10_idempotent and C10_link_record are NOT proved here; they are established by the oracle and
-   the correspondence only (walk = target, second call returns None and changes nothing, saved
-   record = recomputed (inode, token)).  The intended statement is
+   Common hypotheses of the convergence family ([Conv], below): arbitrary content hash H with
+   non-empty values and no collision; a READABLE prior workspace ([stageable w]: no dangling
+   symbolic link; paths agree in kind with the target by construction of the model: a workspace is
+   a map path -> file); the target's objects are in the (intact) cache; force; at least one usable
+   link type (test_links result t0 :: _ - arbitrary: copy, hardlink or symlink); an arbitrary
+   duplicate-free iteration order of the key set that covers the keys.  Store classes differ only
+   in cache.check, which the model abstracts as "the object is present and intact" (C07).
 
-     C10_converges : g_force g = true -> stageable w = true -> g_links g <> [] ->
-        (forall k o, kassoc k tgt = Some o -> o <> [] /\ exists co, oassoc o c = Some co) ->
-        NoDup order -> (forall k, is_some (kassoc k w) || is_some (kassoc k tgt) = true -> In k order) ->
-        intact c -> injective H ->
-        forall k, option_map f_bytes (kassoc k (r_ws (checkout H g c w tgt order))) = expected c tgt k
+   Without [stageable w] C10_converges is refuted by the faithful model (C10_converges_refuted, the
+   recorded finding C10:does-not-converge:old-tree-build-failed).
 
-   Without [stageable w] it is refuted by the faithful model (C10_converges_refuted, the recorded
-   finding C10:does-not-converge:old-tree-build-failed): a dangling link makes the dry re-staging
-   fail, checkout goes on without an old tree and never deletes anything.  What is proved, unbounded:
-   - C10_cache_untouched: no step of the model writes the cache (that the implementation has no
-     such step is what the correspondence's byte snapshot measures);
-   - C10_relink_partial: the decision the relinking checkout rests on - the *generated*
-     _needs_relink answers "no" exactly for files that already have the single configured link
-     type (inode of the cache object for hard links, destination = cache path for symlinks).
-     This is the obligation that finding 7.7 refuted before commit a8647e5.  The full statement
-     (relink -> forall file, kind ws' file = configured type) additionally needs the per-path
-     frame argument over run_files. *)
+   C10_relink, precisely: after a relinking forced checkout every file is (a) a fresh link of the
+   FIRST type test_links reports usable, or (b) an independent copy kept because the first
+   CONFIGURED type is "copy" (cache.unprotect), or (c) left alone because the generated
+   _needs_relink found it to already have one of the LISTED types ("reflink" accepts a copy) - this
+   is what the code does with fallback lists, which is weaker than "the first available type".  For
+   a single configured type the three cases collapse to "has that type" (C10_relink_single), with
+   the documented exception: a hard link of an empty object is an independent empty file. *)
 From Coq Require Import NArith List Bool.
-From DvcData Require Import Base.Val Base.PyBase Gen.PyTypes Gen.Relink Model.ObjCheckout Proofs.ObjCheckoutProofs Proofs.ObjCheckoutProofs2.
+From DvcData Require Import Base.Val Base.PyBase Gen.PyTypes Gen.Relink Model.ObjCheckout Proofs.ObjCheckoutProofs Proofs.ObjCheckoutProofs2 Proofs.ObjCoBase Proofs.ObjCoRelinkList Proofs.ObjCoForced Proofs.ObjCoIdem Proofs.ObjCoRelink.
 Import ListNotations.
 Open Scope N_scope.
+
+Definition cached_target (c : cache) (tgt : list (key * oid)) : Prop :=
+  forall k o, kassoc k tgt = Some o ->
+    is_nil o = false /\ HashInfo_isdir (hi o) = false /\ exists co, oassoc o c = Some co.
+
+Record Conv (H : bytes -> oid) (g : cfg) (c : cache) (w : ws) (tgt : list (key * oid))
+            (order : list key) (t0 : lkind) (lrest : list lkind) : Prop := {
+  cv_hash : forall b, is_nil (H b) = false;
+  cv_nocoll : forall a b, H a = H b -> a = b;
+  cv_readable : stageable w = true;
+  cv_cached : cached_target c tgt;
+  cv_intact : forall o co, oassoc o c = Some co -> H (c_bytes co) = o;
+  cv_force : g_force g = true;
+  cv_links : g_links g = t0 :: lrest;
+  cv_nodup : NoDup order;
+  cv_cover : forall k, (is_some (kassoc k w) || is_some (kassoc k tgt))%bool = true -> In k order }.
 
 Theorem C10_cache_untouched : forall H g c w tgt order, r_cache (checkout H g c w tgt order) = c.
 Proof. exact checkout_cache_untouched. Qed.
 Print Assumptions C10_cache_untouched.
 
-Theorem C10_relink_partial : forall t path m cm o, o <> [] ->
+(* files ws' = files target: exactly the target's paths, each with the bytes of its cache object *)
+Theorem C10_converges : forall H g c w tgt order t0 lrest, Conv H g c w tgt order t0 lrest ->
+  let r := checkout H g c w tgt order in
+  (r_out r = ONothing \/ r_out r = ODone (negb (g_relink g))) /\
+  forall k, option_map f_bytes (kassoc k (r_ws r)) = expected c tgt k.
+Proof.
+  intros H g c w tgt order t0 lrest [h1 h2 h3 h4 h5 h6 h7 h8 h9] r.
+  destruct (checkout_forced H g c w tgt order h1 h3 h4 h6 t0 lrest h7 h8) as [Ho [Hf _]].
+  split; [exact Ho|]. intros k. fold r in Hf. rewrite Hf.
+  exact (forced_converges H g c w tgt order h1 h3 h4 h6 t0 lrest h7 h5 h2 h9 k).
+Qed.
+Print Assumptions C10_converges.
+
+(* a second checkout of the result (any flags but relink, any order) reports nothing to do, changes
+   nothing and saves no record *)
+Theorem C10_idempotent : forall H g c w tgt order t0 lrest, Conv H g c w tgt order t0 lrest ->
+  let ws' := r_ws (checkout H g c w tgt order) in
+  forall g2 order2, g_relink g2 = false ->
+    checkout H g2 c ws' tgt order2 = mk_result ONothing ws' c None.
+Proof.
+  intros H g c w tgt order t0 lrest Hc ws' g2 order2 Hr.
+  pose proof (C10_converges H g c w tgt order t0 lrest Hc) as [_ Hconv].
+  destruct Hc as [h1 h2 h3 h4 h5 h6 h7 h8 h9].
+  destruct (checkout_forced H g c w tgt order h1 h3 h4 h6 t0 lrest h7 h8) as [_ [_ [Hu _]]].
+  apply second_plain; auto. now apply stageable_unb.
+Qed.
+Print Assumptions C10_idempotent.
+
+(* ... and a relinking second call under a single configured type re-links nothing when every file
+   already has that type (true after a relinking first call except for empty files under type
+   hardlink, which are re-created every time - documented behaviour of dvc_objects) *)
+Theorem C10_idempotent_relink : forall H g c w tgt order t0 lrest, Conv H g c w tgt order t0 lrest ->
+  let ws' := r_ws (checkout H g c w tgt order) in
+  forall g2 order2 t, g_relink g2 = true -> g_types g2 = [lkind_name t] ->
+    (forall k n o co, kassoc k ws' = Some n -> kassoc k tgt = Some o -> oassoc o c = Some co ->
+                      has_kind t (meta_of n) (Some (cmeta_of co)) o) ->
+    let r2 := checkout H g2 c ws' tgt order2 in
+    r_out r2 = ONothing /\ r_ws r2 = ws'.
+Proof.
+  intros H g c w tgt order t0 lrest Hc ws' g2 order2 t Hr Hty Hk r2.
+  pose proof (C10_converges H g c w tgt order t0 lrest Hc) as [_ Hconv].
+  destruct Hc as [h1 h2 h3 h4 h5 h6 h7 h8 h9].
+  destruct (checkout_forced H g c w tgt order h1 h3 h4 h6 t0 lrest h7 h8) as [_ [_ [Hu _]]].
+  subst r2. rewrite (second_relink H g2 c ws' tgt order2 h1 (proj2 (stageable_unb ws') Hu) h4 h5 Hconv t Hr Hty Hk).
+  split; reflexivity.
+Qed.
+Print Assumptions C10_idempotent_relink.
+
+(* link types after a relinking checkout, fallback lists included (see the header) *)
+Theorem C10_relink : forall H g c w tgt order t0 lrest, Conv H g c w tgt order t0 lrest ->
+  g_relink g = true ->
+  forall k n, kassoc k (r_ws (checkout H g c w tgt order)) = Some n ->
+  exists o co, kassoc k tgt = Some o /\ oassoc o c = Some co /\
+    (n = link_node t0 o co (g_now g) \/
+     (cache_is_copy g = true /\ has_kind LCopy (meta_of n) (Some (cmeta_of co)) o) \/
+     (exists t, listed t (g_types g) /\ has_kind t (meta_of n) (Some (cmeta_of co)) o)).
+Proof.
+  intros H g c w tgt order t0 lrest [h1 h2 h3 h4 h5 h6 h7 h8 h9] Hr k n Hk.
+  destruct (checkout_forced H g c w tgt order h1 h3 h4 h6 t0 lrest h7 h8) as [_ [Hf _]].
+  rewrite Hf in Hk. exact (forced_relink H g c w tgt order h1 h3 h4 h6 t0 lrest h7 h9 k n Hr Hk).
+Qed.
+Print Assumptions C10_relink.
+
+(* single configured (and usable) type: every file has exactly that type *)
+Theorem C10_relink_single : forall H g c w tgt order t, Conv H g c w tgt order t [] ->
+  g_relink g = true -> g_types g = [lkind_name t] ->
+  forall k n, kassoc k (r_ws (checkout H g c w tgt order)) = Some n ->
+  exists o co, kassoc k tgt = Some o /\ oassoc o c = Some co /\ node_kind t n co o.
+Proof.
+  intros H g c w tgt order t [h1 h2 h3 h4 h5 h6 h7 h8 h9] Hr Hty k n Hk.
+  destruct (checkout_forced H g c w tgt order h1 h3 h4 h6 t [] h7 h8) as [_ [Hf _]].
+  rewrite Hf in Hk. exact (forced_relink_single H g c w tgt order h1 h3 h4 h6 t h7 Hty h9 Hr k n Hk).
+Qed.
+Print Assumptions C10_relink_single.
+
+(* the decision it rests on: the generated _needs_relink, single type, both directions *)
+Theorem C10_relink_decision : forall t path m cm o, o <> [] ->
   (needs_relink path (mk_cacheinfo [lkind_name t] (fun x => x)) m cm (Some o) = false <-> has_kind t m cm o).
 Proof.
   intros t path m cm o Ho. split.
   - now apply needs_relink_sound.
   - now apply needs_relink_complete.
 Qed.
-Print Assumptions C10_relink_partial.
+Print Assumptions C10_relink_decision.
 
-(* the target's files and bytes, as a function of the path *)
-Definition expected (c : cache) (tgt : list (key * oid)) (k : key) : option bytes :=
-  match kassoc k tgt with Some o => option_map c_bytes (oassoc o c) | None => None end.
+(* the saved link record (what _save_link tokenises, path |-> mtime) is exactly the path |-> mtime
+   map of the resulting workspace; the inode half of the record is the workspace root's, which the
+   model does not represent (judged by the oracle) *)
+Theorem C10_link_record : forall H g c w tgt order t0 lrest, Conv H g c w tgt order t0 lrest ->
+  let r := checkout H g c w tgt order in
+  forall rec, r_links r = Some rec ->
+  forall k m, In (k, m) rec <-> exists n, kassoc k (r_ws r) = Some n /\ f_mtime n = m.
+Proof.
+  intros H g c w tgt order t0 lrest [h1 h2 h3 h4 h5 h6 h7 h8 h9] r rec Hrec k m.
+  destruct (checkout_forced H g c w tgt order h1 h3 h4 h6 t0 lrest h7 h8) as [_ [Hf [_ Hl]]].
+  fold r in Hf, Hl. rewrite (Hl rec Hrec), Hf.
+  exact (forced_record H g c w tgt order h1 h3 h4 h6 t0 lrest h7 h9 k m).
+Qed.
+Print Assumptions C10_link_record.
 
-(* full statement (no restriction on the prior workspace): refuted.  Forced checkout, cached target,
-   every key in the order, usable link type - and a file outside the target survives because the
-   workspace holds a dangling symbolic link. *)
+(* full statement of C10_converges (no restriction on the prior workspace): refuted.  Forced
+   checkout, cached target, every key in the order, usable link type - and a file outside the
+   target survives because the workspace holds a dangling symbolic link. *)
 Theorem C10_converges_refuted :
   exists (H : bytes -> oid) g c w tgt order,
     g_force g = true /\ g_links g <> [] /\
@@ -72,19 +171,39 @@ Proof.
 Qed.
 Print Assumptions C10_converges_refuted.
 
-(* the same input with a readable prior (no dangling link) converges, the second call has nothing
-   to do and leaves the workspace alone *)
-Theorem C10_converges_instance :
+(* the hypotheses [Conv] are satisfiable by a non-trivial state (a file to delete, one to add, one
+   to replace, one to keep), and the conclusions are then visible by computation *)
+Theorem C10_conv_instance :
   let H := fun b : bytes => 1 :: b in
-  let g := mk_cfg true false None [hardlink_name] [LHard] true 9 in
-  let c := [([1; 65], mk_cobj [65] 1 1 1)] in
-  let tgt := [([[122]], [1; 65])] in
-  let order := [[[122]]; [[97]]] in
-  let r := checkout H g c [([[97]], mk_fnode [67] false None false 0 1 2)] tgt order in
-  r_out r = ODone true /\
-  map (fun kn => (fst kn, f_bytes (snd kn))) (r_ws r) = [([[122]], [65])] /\
-  r_links r = Some [([[122]], 1)] /\
-  let r2 := checkout H g c (r_ws r) tgt order in
-  r_out r2 = ONothing /\ r_ws r2 = r_ws r.
-Proof. vm_compute. repeat split; reflexivity. Qed.
-Print Assumptions C10_converges_instance.
+  let g := mk_cfg true true None [hardlink_name] [LHard] true 9 in
+  let c := [([1; 65], mk_cobj [65] 1 1 1); ([1; 66], mk_cobj [66] 2 1 2)] in
+  let w := [([[97]], mk_fnode [67] false None false 0 1 3); ([[98]], mk_fnode [65] false None false 0 1 4);
+            ([[100]], mk_fnode [66] false None false 2 2 2)] in
+  let tgt := [([[122]], [1; 65]); ([[98]], [1; 66]); ([[100]], [1; 66])] in
+  let order := [[[122]]; [[97]]; [[98]]; [[100]]] in
+  Conv H g c w tgt order LHard [] /\
+  let r := checkout H g c w tgt order in
+  r_out r = ODone false /\
+  map (fun kn => (fst kn, f_bytes (snd kn))) (r_ws r) = [([[98]], [66]); ([[122]], [65]); ([[100]], [66])] /\
+  r_links r = Some [([[122]], 1); ([[98]], 2); ([[100]], 2)] /\
+  r_out (checkout H (mk_cfg false false None [hardlink_name] [LHard] true 9) c (r_ws r) tgt order) = ONothing.
+Proof.
+  split.
+  - constructor; try reflexivity.
+    + intros a b E. now injection E.
+    + intros k o. simpl.
+      repeat (destruct (key_eqb k _); [intros E; injection E as <-; repeat split; eexists; reflexivity|]). discriminate.
+    + intros o co. simpl.
+      destruct (list_N_eqb o [1; 65]) eqn:E1; [apply list_N_eqb_spec in E1; subst; intros E; now injection E as <-|].
+      destruct (list_N_eqb o [1; 66]) eqn:E2; [apply list_N_eqb_spec in E2; subst; intros E; now injection E as <-|].
+      intros E; discriminate.
+    + repeat constructor; simpl; intuition discriminate.
+    + intros k. simpl.
+      destruct (key_eqb k [[97]]) eqn:E1; [apply ObjCheckoutProofs.key_eqb_spec in E1; subst; simpl; auto 10|].
+      destruct (key_eqb k [[98]]) eqn:E2; [apply ObjCheckoutProofs.key_eqb_spec in E2; subst; simpl; auto 10|].
+      destruct (key_eqb k [[100]]) eqn:E3; [apply ObjCheckoutProofs.key_eqb_spec in E3; subst; simpl; auto 10|].
+      destruct (key_eqb k [[122]]) eqn:E4; [apply ObjCheckoutProofs.key_eqb_spec in E4; subst; simpl; auto 10|].
+      simpl. discriminate.
+  - vm_compute. repeat split; reflexivity.
+Qed.
+Print Assumptions C10_conv_instance.
